@@ -13,6 +13,8 @@ def build(table="module"):
     import spec.channel_spec as cs
     S.load_module(bs)
     S.load_module(cs)
+    import spec.policy_spec as ps
+    S.load_module(ps)
     import rpyc.core.channel as ch
     S.consts["C"] = tables.frame_consts_from_module(ch)
     import rpyc.core.stream as stream_mod
@@ -23,7 +25,7 @@ def build(table="module"):
     S.consts["T"] = T
     S.consts["PERM_INVARIANT"] = bs.PERM_INVARIANT
     st = store.Store()
-    for m in ("brine", "compat", "externals", "stream", "channel"):
+    for m in ("brine", "compat", "externals", "stream", "channel", "protocol_attr"):
         importlib.import_module("contracts." + m).register(st)
     lib = libmodels.Lib(S)
     ex = engine.Executor(st, REPO, S, lib)
